@@ -510,10 +510,69 @@ def gen_state_inventory():
     return "\n".join(L) + "\n"
 
 
+def gen_fake_headers():
+    """the fake libc include tree as an abstract file system"""
+    root = os.path.join(REPO, "utils", "fake_libc_include")
+    L = ["/-! GENERATED by tools/extract.py from utils/fake_libc_include — do not edit. -/",
+         "namespace PycModel.Generated"]
+    rows = []
+    macro_names = set()
+    text_words = set()
+    odd = []
+    for dirpath, _, files in sorted(os.walk(root)):
+        for fn in sorted(files):
+            path = os.path.join(dirpath, fn)
+            rel = os.path.relpath(path, root)
+            src = open(path, errors="replace").read()
+            src = re.sub(r"/\*.*?\*/", " ", src, flags=re.S)
+            lines = [l.strip() for l in src.split("\n")]
+            lines = [l for l in lines if l]
+            guard = None
+            if len(lines) >= 3 and re.match(r"#\s*ifndef\s+(\w+)$", lines[0]) and re.match(r"#\s*define\s+(\w+)$", lines[1]) and re.match(r"#\s*endif", lines[-1]):
+                g1 = re.match(r"#\s*ifndef\s+(\w+)$", lines[0]).group(1)
+                g2 = re.match(r"#\s*define\s+(\w+)$", lines[1]).group(1)
+                if g1 == g2:
+                    guard = g1
+                    lines = lines[2:-1]
+            includes = []
+            has_body = False
+            includes_first = True
+            for l in lines:
+                m = re.match(r'#\s*include\s+"([^"]+)"$', l)
+                if m:
+                    # quote include: resolved relative to the including file's directory first, then -I root
+                    cand = os.path.normpath(os.path.join(os.path.dirname(rel), m.group(1)))
+                    if not os.path.exists(os.path.join(root, cand)):
+                        cand = m.group(1)
+                    includes.append(cand)
+                    if has_body:
+                        includes_first = False
+                    continue
+                if re.match(r"#\s*include", l):
+                    odd.append(rel + ": " + l)
+                    continue
+                has_body = True
+                m = re.match(r"#\s*define\s+(\w+)", l)
+                if m:
+                    macro_names.add(m.group(1))
+                elif not l.startswith("#"):
+                    text_words |= set(re.findall(r"[A-Za-z_]\w*", l))
+            rows.append("{ name := %s, guard := %s, includes := %s, hasBody := %s, includesFirst := %s }" % (
+                lean_str(rel), "none" if guard is None else "(some %s)" % lean_str(guard), str_list(includes),
+                "true" if has_body else "false", "true" if includes_first else "false"))
+    L.append("structure FileDesc where\n  name : String\n  guard : Option String\n  includes : List String\n  hasBody : Bool\n  includesFirst : Bool\n  deriving Repr, DecidableEq")
+    L.append("def fakeFS : List FileDesc := " + lean_list(rows, True))
+    L.append("/-- identifiers that are both an object-like/function-like macro of the tree and a word of a text line -/")
+    L.append("def macroWordsInText : List String := " + str_list(sorted(macro_names & text_words)))
+    L.append("def oddIncludes : List String := " + str_list(odd))
+    L.append("end PycModel.Generated")
+    return "\n".join(L) + "\n"
+
+
 def main():
     changed = []
     errors = {}
-    for name, fn in [("LexTables.lean", gen_lex), ("ParserTables.lean", gen_parser_tables), ("Classes.lean", gen_classes), ("StateInventory.lean", gen_state_inventory)]:
+    for name, fn in [("LexTables.lean", gen_lex), ("ParserTables.lean", gen_parser_tables), ("Classes.lean", gen_classes), ("StateInventory.lean", gen_state_inventory), ("FakeHeaders.lean", gen_fake_headers)]:
         try:
             if write_if_changed(name, fn()):
                 changed.append(name)
